@@ -356,6 +356,13 @@ def assign (fuel : Nat) (parts : List (Topic × List Nat)) (members : List Membe
       if s.badOracle then .badOracle else
       .ok (members.map (fun m => (m.id, finalFor s m.id))) s.oracle.length
 
+/-- the hypotheses of the fixpoint theorem (`Props/C15.lean: c15_fixpoint_partial`), evaluated on
+    the state `assign` hands to `balance` -/
+def fixpointHyp (parts : List (Topic × List Nat)) (members : List MemberIn) : Bool :=
+  let s := populatePartitionsToReassign (populateSortedPartitions (initState parts members []))
+  !s.cur.isEmpty && s.unassigned.all (fun p => (consumersOf s p).isEmpty) &&
+  isBalanced (setAsideFixed (assignUnassigned { s with subs := s.cur.map (·.1) })).1
+
 /-! ### driver: `assign <parts> <members> <prev> <oracle>`
     `prev`: `m=t:p,p;t:p|m=…` (the user data of each member), `oracle`: `t:p,t:p` -/
 open AkVerif.Util
@@ -381,6 +388,14 @@ def handle : List String → Option String
     | .raised e => some ("raise:" ++ e)
     | .outOfFuel => some "out-of-fuel"
     | .badOracle => some "bad-oracle"
+  | ["fixpoint-hyp", ps, ms, prev] => do
+    let parts ← parseParts ps
+    let mems ← parseMembers ms
+    let prevOut ← parseOutput prev
+    let members := mems.map fun (m, subs) =>
+      { id := m, subs := subs,
+        prev := ((prevOut.find? (·.1 == m)).map (fun mo => mo.2.flatMap (fun tp => tp.2.map (fun p => (tp.1, p))))).getD [] : MemberIn }
+    some (toString (fixpointHyp parts members))
   | _ => none
 
 end AkVerif.StickyAlg
